@@ -1,7 +1,7 @@
 """Spec functions for the pairing TLV8 wire format (HAP specification, TLV8 appendix):
 an item (type k, value v) is written as  k, len, v  with values longer than 255 bytes split
 into maximal 255-byte fragments that repeat the type; a zero-length value is `k 0`."""
-from pyvc.api import spec, Int, Bytes, ListOf, TupleOf
+from pyvc.api import spec, Int, Bool, Bytes, ByteArray, ListOf, TupleOf
 
 Item = TupleOf(Int, Bytes)
 Items = ListOf(Item)
@@ -34,3 +34,42 @@ def enc_upto(d, n):
 
 def enc(d):
     return enc_upto(d, len(d))
+
+
+# ---------------------------------------------------------------------------------------
+# decoding: the accumulated result `acc` (a list of [type, value] two-lists) and the bytes still
+# to be read; equal-typed neighbours merge; a non-empty `expected` filter stops at the first
+# unexpected type.  dec_ok says the remaining bytes are well-formed (every declared length fits).
+
+DItem = TupleOf(Int, ByteArray, aslist=True)
+DItems = ListOf(DItem)
+Ints = ListOf(Int)
+
+
+@spec(args=[ByteArray, Ints], ret=Bool)
+def dec_ok(tail, expected):
+    if len(tail) == 0:
+        return True
+    if len(expected) > 0 and tail[0] not in expected:
+        return True
+    if len(tail) < 2:
+        return False
+    if len(tail) < 2 + tail[1]:
+        return False
+    return dec_ok(tail[2 + tail[1]:], expected)
+
+
+@spec(args=[DItems, ByteArray, Ints], ret=DItems)
+def dec_from(acc, tail, expected):
+    if len(tail) == 0:
+        return acc
+    if len(expected) > 0 and tail[0] not in expected:
+        return acc
+    if len(tail) < 2 or len(tail) < 2 + tail[1]:
+        return acc
+    k = tail[0]
+    v = tail[2: 2 + tail[1]]
+    rest = tail[2 + tail[1]:]
+    if len(acc) > 0 and acc[-1][0] == k:
+        return dec_from(acc[:-1] + [[k, acc[-1][1] + v]], rest, expected)
+    return dec_from(acc + [[k, v]], rest, expected)
